@@ -316,3 +316,8 @@ Section Reorder.
   Definition reorder (fuel : nat) (names : list string) : option (list string) :=
     match ofold (visit fuel) names ([], []) with Some st => Some (snd st) | None => None end.
 End Reorder.
+
+(* the dependency relation as the checker receives it: an association list model -> its dependencies
+   (a model without an entry has none); the checker runs [reorder (deps_of deps) (S (length deps))] *)
+Definition deps_of (deps : list (string * list string)) (n : string) : list string :=
+  match lookup n deps with Some l => l | None => [] end.
